@@ -1,0 +1,32 @@
+//go:build verif
+
+package caldav
+
+// VerifC15Values returns, for the verification harness in /verif (build tag
+// "verif" only), constructors of empty values of this package's unexported
+// XML structures, by type name. It adds no behaviour.
+func VerifC15Values() map[string]func() interface{} {
+	return map[string]func() interface{}{
+		"calendarHomeSet":               func() interface{} { return &calendarHomeSet{} },
+		"calendarDescription":           func() interface{} { return &calendarDescription{} },
+		"supportedCalendarData":         func() interface{} { return &supportedCalendarData{} },
+		"supportedCalendarComponentSet": func() interface{} { return &supportedCalendarComponentSet{} },
+		"calendarDataType":              func() interface{} { return &calendarDataType{} },
+		"maxResourceSize":               func() interface{} { return &maxResourceSize{} },
+		"calendarQuery":                 func() interface{} { return &calendarQuery{} },
+		"calendarMultiget":              func() interface{} { return &calendarMultiget{} },
+		"filter":                        func() interface{} { return &filter{} },
+		"compFilter":                    func() interface{} { return &compFilter{} },
+		"propFilter":                    func() interface{} { return &propFilter{} },
+		"paramFilter":                   func() interface{} { return &paramFilter{} },
+		"textMatch":                     func() interface{} { return &textMatch{} },
+		"timeRange":                     func() interface{} { return &timeRange{} },
+		"calendarDataReq":               func() interface{} { return &calendarDataReq{} },
+		"comp":                          func() interface{} { return &comp{} },
+		"expand":                        func() interface{} { return &expand{} },
+		"prop":                          func() interface{} { return &prop{} },
+		"calendarDataResp":              func() interface{} { return &calendarDataResp{} },
+		"reportReq":                     func() interface{} { return &reportReq{} },
+		"mkcolReq":                      func() interface{} { return &mkcolReq{} },
+	}
+}
